@@ -177,7 +177,11 @@ def close(a, b, tol=TOL):
 class Disagreement(Exception):
     pass
 
-class Machine:
+from machine_approx import ApproxOps
+from machine_trunc import TruncOps
+
+
+class Machine(ApproxOps, TruncOps):
     """One program = one sequence of instructions over registers."""
 
     def __init__(self, label=""):
